@@ -1546,7 +1546,8 @@ class CodeGenerator(NodeVisitor):
         else:
             self.write("str(")
 
-        if finalize.src is not None:
+        # Template data doesn't go through finalize.
+        if finalize.src is not None and not isinstance(node, nodes.TemplateData):
             self.write(finalize.src)
 
     def _output_child_post(
@@ -1557,7 +1558,7 @@ class CodeGenerator(NodeVisitor):
         """
         self.write(")")
 
-        if finalize.src is not None:
+        if finalize.src is not None and not isinstance(node, nodes.TemplateData):
             self.write(")")
 
     def visit_Output(self, node: nodes.Output, frame: Frame) -> None:
